@@ -938,14 +938,28 @@ func TestCrashPoints(t *testing.T) {
 				ks = append(ks, rest[i])
 			}
 		}
+		var cases []Case
 		for _, k := range ks {
-			c := Case{Kind: kind, Target: 3, K: k}
-			if thorough && k%5 == 0 {
-				c.K2 = 1 + (k*7)%23
+			walOrSigner := strings.HasPrefix(sites[k-1], "autofile.") || strings.HasPrefix(sites[k-1], "wfa.")
+			switch {
+			case thorough:
+				// every crash index alone, and once more with a second crash while the node recovers
+				// and goes on (the second index moves through the writes of the restart and of the
+				// next height: WAL lines, signer file, databases)
+				cases = append(cases, Case{Kind: kind, Target: 3, K: k}, Case{Kind: kind, Target: 3, K: k, K2: 2 + (k*7+seed)%19})
+			case walOrSigner:
+				// the strided WAL / signer-file indices of the quick tier always come with a second crash
+				cases = append(cases, Case{Kind: kind, Target: 3, K: k, K2: 3 + (k*5+seed)%17})
+			default:
+				c := Case{Kind: kind, Target: 3, K: k}
+				if (k+seed)%4 == 0 {
+					c.K2 = 3 + (k*5)%17
+				}
+				cases = append(cases, c)
 			}
-			if !thorough && (k+seed)%4 == 0 {
-				c.K2 = 3 + (k*5)%17
-			}
+		}
+		for _, c := range cases {
+			c := c
 			idx++
 			if idx%shards != shard {
 				continue
